@@ -119,6 +119,12 @@ func VerifH_C11_fill() {
 	hasLen := verifBool("haslength")
 	hasStart := hasLen && verifBool("hasstart")
 	var bl, bs uint64
+	if verifBool("sameuri") {
+		// byte-range addressing: every segment is a range of the same file
+		for _, sg := range pl.Segments {
+			sg.URI = uc.uri
+		}
+	}
 	if want >= 0 {
 		pl.Segments[want].URI = uc.uri
 		if hasLen {
